@@ -42,13 +42,24 @@ def build(case, copied):
     inter = tp.domains.Interval(S, 0, 1)
     fspace = tp.spaces.FunctionSpace(inter, E)
     disc = tp.samplers.GridSampler(inter, case["D"]).make_static()
+    A = {"tanh": torch.nn.Tanh, "sigmoid": torch.nn.Sigmoid, "softplus": torch.nn.Softplus, "silu": torch.nn.SiLU}
+
+    def akw(names, gains):
+        # per-layer activation / gain lists (None: the library's single default activation)
+        kw = {}
+        if names:
+            kw["activations"] = [A[n]() for n in names]
+        if gains:
+            kw["xavier_gains"] = list(gains)
+        return kw
     if case["branch"] == "fc":
-        branch = FCBranchNet(fspace, disc, hidden=tuple(case["bhidden"]))
+        branch = FCBranchNet(fspace, disc, hidden=tuple(case["bhidden"]), **akw(case.get("bacts"), case.get("bgains")))
     else:
         conv = torch.nn.Sequential(torch.nn.Conv1d(case["e"], 2, 3, padding=1), torch.nn.Tanh(),
                                    torch.nn.Conv1d(2, case["e"], 3, padding=1))
         branch = ConvBranchNet1D(fspace, disc, conv, hidden=tuple(case["bhidden"]))
-    trunk = FCTrunkNet(Tsp, hidden=tuple(case["thidden"]), trunk_input_copied=copied)
+    trunk = FCTrunkNet(Tsp, hidden=tuple(case["thidden"]), trunk_input_copied=copied,
+                       **akw(case.get("tacts"), case.get("tgains")))
     if case.get("norm_layer"):
         dom = tp.domains.Interval(Tsp, -1.0, 3.0) if d == 1 else tp.domains.Parallelogram(Tsp, [-1, -1], [3, -1], [-1, 3])
         trunk_full = tp.models.Sequential(tp.models.NormalizationLayer(dom), trunk)
